@@ -348,7 +348,7 @@ func (r *vgRun) exec(line string) {
 		}
 		cyc := r.ref.hasCycle()
 		if (err != nil) != cyc {
-			r.fail("C06,C19", fmt.Sprintf("TopologicalSort: got err=%v, reference hasCycle=%v", err != nil, cyc))
+			r.fail("C05,C06,C19", fmt.Sprintf("TopologicalSort: got err=%v (its only error is the circular-dependency report), reference hasCycle=%v", err != nil, cyc))
 		}
 		if err == nil {
 			pos := map[int]int{}
